@@ -151,7 +151,7 @@ func (g *G) callOpt(depth int, allowContent bool) ref.Node {
 }
 
 var msgTexts = []string{"Hello", "world", "You have", "items", "Click", "here", "!", ",", "and", "from"}
-var msgTags = []string{"<b>", "</b>", "<br/>", "<a href=\"http://x/y\">", "</a>", "<i>", "</i>", "<span class=\"c\">", "</span>"}
+var msgTags = []string{"<b>", "</b>", "<br/>", "<a href=\"http://x/y\">", "</a>", "<i>", "</i>", "<span class=\"c\">", "</span>", "<my-button kind=\"ok\">", "</my-button>", "<o:p>", "</o:p>"}
 
 func (g *G) msgParts(depth int, allowCall bool) []ref.Node {
 	var out []ref.Node
